@@ -1,287 +1,236 @@
-"""One-row abstraction of pandas Series code: a Series is represented by its value at one generic row
-(a number, NaN, or ABSENT when the row was filtered out), a boolean mask by one bool, an Index by
-'row present?'.  Straight-line / single-loop feature code that touches series only through
-comparisons, boolean-mask selection, +/-, reindex(fill_value) and Series(scalar, index=...) is
-interpreted from its AST under this abstraction; anything else raises Unsupported.
-Nothing of the analysed repository is executed: the interpreter below is the only semantics used."""
+"""One-row abstraction of pandas Series code: a Series is represented by its value at one generic row (a number, NaN, or ABSENT
+when the row was filtered out), a boolean mask by one bool, an Index by 'row present?'.  Feature code that touches series through
+comparisons, boolean-mask selection, arithmetic, reindex(fill_value), clip / where / mask / fillna, np.where / minimum / maximum and
+Series(scalar, index=...) is interpreted from its AST (engine/pyinterp) with these stand-ins; anything else raises Unsupported.
+Nothing of the analysed repository is executed: the interpreter and the stand-ins below are the only semantics used."""
 from __future__ import annotations
 
-import ast
 import math
-from dataclasses import dataclass
-from typing import Any, Callable, Dict, List, Optional
+from typing import Any
 
-from .index import unparse
-
-
-class Unsupported(Exception):
-    pass
-
+from .pyinterp import Stub, Unsupported
 
 ABSENT = "<absent>"
-
-
-@dataclass
-class Ser:
-    v: Any  # float | ABSENT ; NaN is float('nan')
-
-    def present(self):
-        return self.v is not ABSENT
-
-
-@dataclass
-class Idx:
-    present: bool
-
-
-@dataclass
-class Mask:
-    b: bool
 
 
 def _isnan(x):
     return isinstance(x, float) and math.isnan(x)
 
 
-class RowInterp:
-    def __init__(self, fn: ast.FunctionDef, series_params: Dict[str, float], other_params: Dict[str, Any]):
-        self.fn = fn
-        self.env: Dict[str, Any] = {}
-        for k, v in series_params.items():
-            self.env[k] = Ser(v)
-        self.env.update(other_params)
-        self.base_index_of = {k for k in series_params}
-        self.local_funcs: Dict[str, ast.FunctionDef] = {}
-        self.ret: Any = None
+def _num(x) -> bool:
+    return isinstance(x, (int, float)) and not isinstance(x, bool)
 
-    # ------------------------------------------------------------ expressions
-    def ev(self, e: ast.AST) -> Any:
-        if isinstance(e, ast.Constant):
-            return e.value
-        if isinstance(e, ast.Name):
-            if e.id in self.env:
-                return self.env[e.id]
-            raise Unsupported(f"unbound name {e.id}")
-        if isinstance(e, ast.Attribute):
-            t = unparse(e)
-            if t in ("np.inf", "math.inf"):
-                return math.inf
-            if t in ("np.nan", "math.nan"):
-                return math.nan
-            base = self.ev(e.value)
-            if isinstance(base, Ser) and e.attr == "index":
-                return Idx(base.present())
-            raise Unsupported(t)
-        if isinstance(e, ast.UnaryOp):
-            v = self.ev(e.operand)
-            if isinstance(e.op, ast.USub) and isinstance(v, (int, float)):
-                return -v
-            if isinstance(e.op, ast.Invert) and isinstance(v, Mask):
-                return Mask(not v.b)
-            if isinstance(e.op, ast.Not) and isinstance(v, bool):
-                return not v
-            raise Unsupported(unparse(e))
-        if isinstance(e, ast.List):
-            return [self.ev(x) for x in e.elts]
-        if isinstance(e, ast.Tuple):
-            return tuple(self.ev(x) for x in e.elts)
-        if isinstance(e, ast.Dict):
-            return {self.ev(k): self.ev(v) for k, v in zip(e.keys, e.values)}
-        if isinstance(e, ast.BinOp):
-            l, r = self.ev(e.left), self.ev(e.right)
-            return self.binop(e.op, l, r, e)
-        if isinstance(e, ast.Compare) and len(e.ops) == 1:
-            l, r = self.ev(e.left), self.ev(e.comparators[0])
-            return self.compare(e.ops[0], l, r, e)
-        if isinstance(e, ast.Subscript):
-            base = self.ev(e.value)
-            if isinstance(e.slice, ast.Slice):
-                if isinstance(base, (list, tuple)):
-                    lo = self.ev(e.slice.lower) if e.slice.lower else None
-                    hi = self.ev(e.slice.upper) if e.slice.upper else None
-                    return base[lo:hi]
-                raise Unsupported(unparse(e))
-            k = self.ev(e.slice)
-            if isinstance(base, Ser) and isinstance(k, Mask):
-                return Ser(base.v if (k.b and base.present()) else ABSENT)
-            if isinstance(base, Idx) and isinstance(k, Mask):
-                return Idx(base.present and k.b)
-            if isinstance(base, (list, tuple, dict)):
-                return base[k]
-            raise Unsupported(unparse(e))
-        if isinstance(e, ast.Call):
-            return self.call(e)
-        raise Unsupported(unparse(e))
 
-    def binop(self, op, l, r, e):
-        if isinstance(l, Mask) and isinstance(r, Mask):
-            if isinstance(op, ast.BitAnd):
-                return Mask(l.b and r.b)
-            if isinstance(op, ast.BitOr):
-                return Mask(l.b or r.b)
-            raise Unsupported(unparse(e))
-        if isinstance(l, list) and isinstance(r, list) and isinstance(op, ast.Add):
-            return l + r
-        def arith(a, b):
-            if isinstance(op, ast.Add):
-                return a + b
-            if isinstance(op, ast.Sub):
-                return a - b
-            if isinstance(op, ast.Mult):
-                return a * b
-            if isinstance(op, ast.Div):
-                return a / b
-            raise Unsupported(unparse(e))
-        if isinstance(l, Ser) or isinstance(r, Ser):
-            lv = l.v if isinstance(l, Ser) else l
-            rv = r.v if isinstance(r, Ser) else r
-            if isinstance(l, Ser) and isinstance(r, Ser):
-                # pandas aligns on the union of the indexes: a row missing on one side gives NaN
-                if lv is ABSENT and rv is ABSENT:
-                    return Ser(ABSENT)
-                if lv is ABSENT or rv is ABSENT:
-                    return Ser(math.nan)
-            elif lv is ABSENT or rv is ABSENT:
+class Mask(Stub):
+    def __init__(self, b: bool):
+        self.b = bool(b)
+
+    def __and__(self, o): return Mask(self.b and _mb(o))
+    __rand__ = __and__
+    def __or__(self, o): return Mask(self.b or _mb(o))
+    __ror__ = __or__
+    def __invert__(self): return Mask(not self.b)
+    def __xor__(self, o): return Mask(self.b != _mb(o))
+
+    def __bool__(self):
+        raise Unsupported("truth value of a boolean series")
+
+    def __repr__(self):
+        return f"Mask({self.b})"
+
+
+def _mb(o) -> bool:
+    if isinstance(o, Mask):
+        return o.b
+    if isinstance(o, bool):
+        return o
+    raise Unsupported("boolean operation between a mask and " + type(o).__name__)
+
+
+class Idx(Stub):
+    def __init__(self, present: bool):
+        self.present = bool(present)
+
+    def __getitem__(self, k):
+        if isinstance(k, Mask):
+            return Idx(self.present and k.b)
+        raise Unsupported("index[...] with a key that is not a mask")
+
+
+class Ser(Stub):
+    def __init__(self, v: Any):
+        self.v = v  # float | ABSENT ; NaN is float('nan')
+
+    def present(self):
+        return self.v is not ABSENT
+
+    def __repr__(self):
+        return f"Ser({self.v})"
+
+    # ---- arithmetic
+    def _arith(self, o, f, swap=False):
+        if isinstance(o, Ser):
+            a, b = (o.v, self.v) if swap else (self.v, o.v)
+            # pandas aligns on the union of the indexes: a row missing on one side gives NaN
+            if a is ABSENT and b is ABSENT:
                 return Ser(ABSENT)
-            if not isinstance(lv, (int, float)) or not isinstance(rv, (int, float)):
-                raise Unsupported(unparse(e))
-            return Ser(arith(lv, rv))
-        if isinstance(l, (int, float)) and isinstance(r, (int, float)):
-            return arith(l, r)
-        raise Unsupported(unparse(e))
+            if a is ABSENT or b is ABSENT:
+                return Ser(math.nan)
+            return Ser(f(a, b))
+        if not _num(o):
+            raise Unsupported("arithmetic between a series and " + type(o).__name__)
+        if self.v is ABSENT:
+            return Ser(ABSENT)
+        return Ser(f(o, self.v) if swap else f(self.v, o))
 
-    def compare(self, op, l, r, e):
-        series = isinstance(l, Ser) or isinstance(r, Ser)
-        lv = l.v if isinstance(l, Ser) else l
-        rv = r.v if isinstance(r, Ser) else r
-        if lv is ABSENT or rv is ABSENT:
-            raise Unsupported("comparison on a filtered series: " + unparse(e))
-        if isinstance(op, (ast.In, ast.NotIn)):
-            res = lv in rv
-            return (not res) if isinstance(op, ast.NotIn) else res
-        if not isinstance(lv, (int, float)) or not isinstance(rv, (int, float)):
-            if isinstance(op, ast.Eq):
-                return Mask(lv == rv) if series else (lv == rv)
-            raise Unsupported(unparse(e))
-        f = {ast.Gt: lambda a, b: a > b, ast.GtE: lambda a, b: a >= b, ast.Lt: lambda a, b: a < b,
-             ast.LtE: lambda a, b: a <= b, ast.Eq: lambda a, b: a == b, ast.NotEq: lambda a, b: a != b}.get(type(op))
-        if f is None:
-            raise Unsupported(unparse(e))
-        res = f(lv, rv)  # NaN compares False (True for !=), as in pandas
-        return Mask(res) if series else res
+    def __add__(self, o): return self._arith(o, lambda a, b: a + b)
+    def __radd__(self, o): return self._arith(o, lambda a, b: a + b, True)
+    def __sub__(self, o): return self._arith(o, lambda a, b: a - b)
+    def __rsub__(self, o): return self._arith(o, lambda a, b: a - b, True)
+    def __mul__(self, o): return self._arith(o, lambda a, b: a * b)
+    def __rmul__(self, o): return self._arith(o, lambda a, b: a * b, True)
+    def __truediv__(self, o): return self._arith(o, lambda a, b: a / b if b != 0 else (math.nan if a == 0 or _isnan(a) else math.copysign(math.inf, a)))
+    def __neg__(self): return Ser(ABSENT if self.v is ABSENT else -self.v)
 
-    def call(self, e: ast.Call):
-        fn = e.func
-        name = unparse(fn)
-        if isinstance(fn, ast.Name) and fn.id in self.local_funcs:
-            f = self.local_funcs[fn.id]
-            args = [self.ev(a) for a in e.args]
-            saved = dict(self.env)
-            for p, a in zip(f.args.args, args):
-                self.env[p.arg] = a
-            try:
-                for st in f.body:
-                    if isinstance(st, ast.Return):
-                        return self.ev(st.value)
-                    if isinstance(st, ast.Expr) and isinstance(st.value, ast.Constant):
-                        continue
-                    self.exec_stmt(st)
-                raise Unsupported(f"nested function {fn.id} without return")
-            finally:
-                self.env = saved
-        if name == "pd.Series" and e.args:
-            val = self.ev(e.args[0])
-            idx = None
-            for k in e.keywords:
-                if k.arg == "index":
-                    idx = self.ev(k.value)
-            if not isinstance(idx, Idx) or not isinstance(val, (int, float)):
-                raise Unsupported(unparse(e))
-            return Ser(val if idx.present else ABSENT)
-        if name == "pd.DataFrame" and len(e.args) == 1:
-            return self.ev(e.args[0])
-        if name in ("enumerate", "zip", "list", "range", "len"):
-            args = [self.ev(a) for a in e.args]
-            return {"enumerate": lambda *a: list(enumerate(*a)), "zip": lambda *a: list(zip(*a)), "list": list, "range": lambda *a: list(range(*a)), "len": len}[name](*args)
-        if isinstance(fn, ast.Attribute):
-            if fn.attr == "format" and isinstance(fn.value, ast.Constant):
-                return fn.value.value.format(*[self.ev(a) for a in e.args])
-            recv = self.ev(fn.value)
-            if isinstance(recv, Ser):
-                if fn.attr == "reindex" and e.args:
-                    idx = self.ev(e.args[0])
-                    fill = math.nan
-                    for k in e.keywords:
-                        if k.arg == "fill_value":
-                            fill = self.ev(k.value)
-                    if not isinstance(idx, Idx):
-                        raise Unsupported(unparse(e))
-                    if not idx.present:
-                        return Ser(ABSENT)
-                    return Ser(recv.v if recv.present() else fill)
-                if fn.attr in ("notnull", "notna"):
-                    return Mask(recv.present() and not _isnan(recv.v))
-                if fn.attr in ("isnull", "isna"):
-                    return Mask(recv.present() and _isnan(recv.v))
-        raise Unsupported(unparse(e))
+    # ---- comparisons (NaN compares False, True for !=, as in pandas)
+    def _cmp(self, o, f):
+        ov = o.v if isinstance(o, Ser) else o
+        if self.v is ABSENT or ov is ABSENT:
+            raise Unsupported("comparison on a filtered series")
+        if not _num(ov) or not _num(self.v):
+            raise Unsupported("comparison between a series and " + type(o).__name__)
+        return Mask(f(self.v, ov))
 
-    # ------------------------------------------------------------ statements
-    def exec_stmt(self, st: ast.stmt):
-        if isinstance(st, ast.Expr) and isinstance(st.value, ast.Constant):
-            return
-        if isinstance(st, ast.FunctionDef):
-            self.local_funcs[st.name] = st
-            return
-        if isinstance(st, ast.Assign) and len(st.targets) == 1:
-            v = self.ev(st.value)
-            self.assign(st.targets[0], v)
-            return
-        if isinstance(st, ast.If):
-            c = self.ev(st.test)
-            if not isinstance(c, bool):
-                raise Unsupported("non-boolean branch: " + unparse(st.test))
-            for s in (st.body if c else st.orelse):
-                self.exec_stmt(s)
-            return
-        if isinstance(st, ast.For):
-            it = self.ev(st.iter)
-            for item in it:
-                self.assign(st.target, item)
-                for s in st.body:
-                    self.exec_stmt(s)
-            return
-        if isinstance(st, ast.Return):
-            self.ret = self.ev(st.value)
-            raise _Return()
-        raise Unsupported(unparse(st)[:80])
+    def __gt__(self, o): return self._cmp(o, lambda a, b: a > b)
+    def __ge__(self, o): return self._cmp(o, lambda a, b: a >= b)
+    def __lt__(self, o): return self._cmp(o, lambda a, b: a < b)
+    def __le__(self, o): return self._cmp(o, lambda a, b: a <= b)
+    def __eq__(self, o): return self._cmp(o, lambda a, b: a == b)
+    def __ne__(self, o): return self._cmp(o, lambda a, b: a != b)
+    __hash__ = None  # type: ignore
 
-    def assign(self, t, v):
-        if isinstance(t, ast.Name):
-            self.env[t.id] = v
-        elif isinstance(t, (ast.Tuple, ast.List)):
-            vs = list(v)
-            if len(vs) != len(t.elts):
-                raise Unsupported("unpack")
-            for a, b in zip(t.elts, vs):
-                self.assign(a, b)
-        elif isinstance(t, ast.Subscript):
-            base = self.ev(t.value)
-            k = self.ev(t.slice)
-            if isinstance(base, dict):
-                base[k] = v
-            else:
-                raise Unsupported(unparse(t))
-        else:
-            raise Unsupported(unparse(t))
+    # ---- selection / alignment
+    def __getitem__(self, k):
+        if isinstance(k, Mask):
+            return Ser(self.v if (k.b and self.present()) else ABSENT)
+        raise Unsupported("series[...] with a key that is not a mask")
 
-    def run(self):
-        try:
-            for st in self.fn.body:
-                self.exec_stmt(st)
-        except _Return:
-            pass
-        return self.ret
+    @property
+    def loc(self):
+        return self
+
+    @property
+    def index(self):
+        return Idx(self.present())
+
+    def reindex(self, index=None, fill_value=math.nan, **k):
+        if k or not isinstance(index, Idx):
+            raise Unsupported("reindex() other than reindex(<index>, fill_value=...)")
+        if not index.present:
+            return Ser(ABSENT)
+        return Ser(self.v if self.present() else fill_value)
+
+    def notnull(self): return Mask(self.present() and not _isnan(self.v))
+    notna = notnull
+    def isnull(self): return Mask(self.present() and _isnan(self.v))
+    isna = isnull
+
+    # ---- value-wise methods (NaN stays NaN, an absent row stays absent)
+    def clip(self, lower=None, upper=None, **k):
+        if k or not all(x is None or _num(x) for x in (lower, upper)):
+            raise Unsupported("clip() with non-scalar bounds")
+        if self.v is ABSENT or _isnan(self.v):
+            return Ser(self.v)
+        v = self.v
+        if lower is not None and not _isnan(lower):
+            v = max(v, lower)
+        if upper is not None and not _isnan(upper):
+            v = min(v, upper)
+        return Ser(v)
+
+    def where(self, cond, other=math.nan, **k):
+        if k or not isinstance(cond, Mask):
+            raise Unsupported("where() with a condition that is not a mask")
+        if self.v is ABSENT:
+            return Ser(ABSENT)
+        return Ser(self.v if cond.b else _row(other))
+
+    def mask(self, cond, other=math.nan, **k):
+        if k or not isinstance(cond, Mask):
+            raise Unsupported("mask() with a condition that is not a mask")
+        return self.where(Mask(not cond.b), other)
+
+    def fillna(self, value=None, **k):
+        if k or not _num(value):
+            raise Unsupported("fillna() other than fillna(<number>)")
+        return Ser(value if _isnan(self.v) else self.v)
+
+    def abs(self): return Ser(self.v if self.v is ABSENT else abs(self.v))
+    def copy(self, deep=True): return Ser(self.v)
+    def astype(self, t): return Ser(self.v) if t in (float, "float", "float64") else (_ for _ in ()).throw(Unsupported("astype() other than float"))
+    def rename(self, *a, **k): return Ser(self.v)
 
 
-class _Return(Exception):
-    pass
+def _row(x):
+    if isinstance(x, Ser):
+        if x.v is ABSENT:
+            return math.nan
+        return x.v
+    if _num(x):
+        return x
+    raise Unsupported("a replacement value that is neither a number nor a series")
+
+
+class NPRow(Stub):
+    inf = math.inf
+    nan = math.nan
+    NaN = math.nan
+
+    @staticmethod
+    def where(cond, a, b):
+        if not isinstance(cond, Mask):
+            raise Unsupported("np.where with a condition that is not a mask")
+        return Ser(_row(a) if cond.b else _row(b))
+
+    @staticmethod
+    def _ext(f, a, b):
+        if not isinstance(a, Ser) and not isinstance(b, Ser):
+            if _num(a) and _num(b):
+                return math.nan if (_isnan(a) or _isnan(b)) else f(a, b)
+            raise Unsupported("np.minimum/maximum of non-numbers")
+        if (isinstance(a, Ser) and a.v is ABSENT) or (isinstance(b, Ser) and b.v is ABSENT):
+            return Ser(ABSENT)
+        x, y = _row(a), _row(b)
+        return Ser(math.nan if (_isnan(x) or _isnan(y)) else f(x, y))
+
+    @staticmethod
+    def minimum(a, b): return NPRow._ext(min, a, b)
+
+    @staticmethod
+    def maximum(a, b): return NPRow._ext(max, a, b)
+
+    @staticmethod
+    def clip(x, lo, hi):
+        if isinstance(x, Ser):
+            return x.clip(lo, hi)
+        raise Unsupported("np.clip of something that is not a series")
+
+
+class PDRow(Stub):
+    @staticmethod
+    def Series(data=None, index=None, **k):
+        if k or not isinstance(index, Idx) or not _num(data):
+            raise Unsupported("pd.Series other than Series(<number>, index=<index>)")
+        return Ser(data if index.present else ABSENT)
+
+    @staticmethod
+    def DataFrame(data=None, **k):
+        if k or not isinstance(data, dict):
+            raise Unsupported("pd.DataFrame other than DataFrame({name: series})")
+        return data
+
+    @staticmethod
+    def concat(objs, axis=0, **k):
+        if axis not in (1, "columns") or k or not isinstance(objs, dict):
+            raise Unsupported("pd.concat other than concat({name: series}, axis=1)")
+        return dict(objs)
